@@ -5,6 +5,7 @@ import (
 	"go/token"
 	"go/types"
 	"math"
+	"sort"
 	"strings"
 
 	"golang.org/x/tools/go/ssa"
@@ -393,6 +394,25 @@ func ruleC19Selector(c *Ctx, r *Result) {
 	case diffIf == nil:
 		r.Viol("C19.3d", c.Name(fn)+"#mode-comparison-missing", c.Pos(fn.Pos()), "no branch compares the proposal's Mode with the remembered mode")
 	default:
+		// the elapsed time that is compared is the raw difference now - lastDecisionTime (rounded or truncated, a gap just
+		// short of the period passes for the period and the hold ends early)
+		if cmp, ok := stabIf.Cond.(*ssa.BinOp); ok {
+			dur := cmp.X
+			if kx, _ := fieldLoadKey(cmp.X); kx == fMinStab {
+				dur = cmp.Y
+			}
+			raw := false
+			if call, isCall := dur.(*ssa.Call); isCall {
+				if g := call.Call.StaticCallee(); g != nil && g.Pkg != nil && g.Pkg.Pkg.Path() == "time" && g.Name() == "Sub" {
+					for _, a := range call.Call.Args {
+						if k, _ := fieldLoadKey(a); k == fLastTime {
+							raw = true
+						}
+					}
+				}
+			}
+			r.Check(raw, "C19.3d", c.Name(fn)+"#elapsed-time-is-the-raw-difference", c.InstrPos(stabIf), "the value compared with MinStabilityPeriod is time.Sub(now, lastDecisionTime) itself")
+		}
 		// the mode comparison must sit on the edge where time < period
 		r.Check(holdNested, "C19.3d", c.Name(fn)+"#mode-comparison-inside-stability-period", c.InstrPos(diffIf), "the mode comparison and the stability-period test are nested: the hold is entered exactly when the period is still running and the proposal differs")
 		bad := ""
@@ -888,6 +908,104 @@ func init() {
 		}
 		if n == 0 {
 			r.Errorf("C19.6: no rebalancing-derived scalar argument found in the root package")
+		}
+	})
+}
+
+// mustContentStores: content fields (contentField) that are stored on every path to every successful return of fn; a function
+// whose successful returns hand back the error result of one sibling call inherits that sibling's set.
+func (c *Ctx) mustContentStores(fn *ssa.Function, depth int) map[string]bool {
+	out := map[string]bool{}
+	if fn == nil || fn.Blocks == nil || depth > 2 {
+		return out
+	}
+	// tail delegation: every return returns the result of the same static module call
+	var deleg *ssa.Function
+	allDeleg := true
+	for _, ret := range returnsOf(fn) {
+		if len(ret.Results) != 1 {
+			allDeleg = false
+			break
+		}
+		call, ok := retOperand(ret, 0).(*ssa.Call)
+		if !ok || call.Call.StaticCallee() == nil || !inModule(fnPkgPath(call.Call.StaticCallee())) {
+			allDeleg = false
+			break
+		}
+		if deleg != nil && deleg != call.Call.StaticCallee() {
+			allDeleg = false
+			break
+		}
+		deleg = call.Call.StaticCallee()
+	}
+	if allDeleg && deleg != nil {
+		return c.mustContentStores(deleg, depth+1)
+	}
+	keys := map[string]bool{}
+	for _, fs := range c.DirectFieldStores(fn) {
+		if fs.Fn == fn && contentField(fs.Key) {
+			keys[fs.Key] = true
+		}
+	}
+	rets := successReturns(fn)
+	for k := range keys {
+		all := len(rets) > 0
+		for _, ret := range rets {
+			if !mustPrecede(ret, func(in ssa.Instruction) bool {
+				st, ok := in.(*ssa.Store)
+				if !ok {
+					return false
+				}
+				f, base := fieldOfAddr(st.Addr)
+				return f != nil && fieldKey(base.Type(), f) == k
+			}) {
+				all = false
+			}
+		}
+		if all {
+			out[k] = true
+		}
+	}
+	return out
+}
+
+func init() {
+	reg := registry["C19"]
+	reg.Meta.Rules["C19.7"] = "every way of deleting a record leaves the index in the same state: the deletion variants of the B-tree (plain, with rebalancing, lazy) store to the same content fields (records, leaf records, header counts) on every successful path - which variant runs is chosen by the rebalancing configuration, so a field one variant forgets makes the content depend on the configuration"
+	reg.Rules = append(reg.Rules, func(c *Ctx, r *Result) {
+		names := []string{"structures.WritableBTreeV2.DeleteRecordWithRebalancing", "structures.WritableBTreeV2.DeleteRecord", "structures.WritableBTreeV2.DeleteRecordLazy"}
+		ref := c.FnOpt(names[0])
+		if ref == nil {
+			r.Undec("C19.7", "structures.WritableBTreeV2#deletion-variants-agree", "", "reference deletion not found")
+			return
+		}
+		want := c.mustContentStores(ref, 0)
+		show := func(m map[string]bool) string {
+			var ks []string
+			for k := range m {
+				ks = append(ks, lastSeg(k))
+			}
+			sort.Strings(ks)
+			return strings.Join(ks, ",")
+		}
+		n := 0
+		for _, nm := range names[1:] {
+			fn := c.FnOpt(nm)
+			if fn == nil {
+				continue
+			}
+			n++
+			got := c.mustContentStores(fn, 0)
+			missing := ""
+			for k := range want {
+				if !got[k] {
+					missing += lastSeg(k) + " "
+				}
+			}
+			r.Check(missing == "", "C19.7", nm+"#same-content-effects-as-"+lastSeg(names[0]), c.Pos(fn.Pos()), "always stores {"+show(got)+"}; the rebalancing deletion always stores {"+show(want)+"}; missing on some successful path: "+missing)
+		}
+		if n == 0 {
+			r.Undec("C19.7", "structures.WritableBTreeV2#deletion-variants-agree", "", "no deletion variant found")
 		}
 	})
 }
